@@ -742,7 +742,7 @@ func c16Gen(r *Run) {
 	// 4. byte level: key / prefix / parse functions on tuples from the pool
 	nkeys, nhist, lhist := 300, 8, 8
 	if r.Tier == "thorough" {
-		nkeys, nhist, lhist = 4000, 120, 14
+		nkeys, nhist, lhist = 6000, 200, 14
 	}
 	fields := []string{"g", "id", "eid", "s", "d", "l", "f", "t", "doc"}
 	keyOp := func(vals []string) {
